@@ -215,15 +215,63 @@ func BytesToReadOnlyString
   ensures arrof(result) == arrof(b) && offof(result) == offof(b) && len(result) == len(b)
   modifies nothing
 
+// ---- resolvers (C19): read-only on their input; out-of-range code points become U+FFFD ----
+fun validRune(r int) bool = (0 <= r && r < 55296) || (57343 < r && r <= 1114111)
+ghost var entityTable() int     // the lazily built HTML5 entity table (private to html5entities.go)
+
+func ToValidRune
+  ensures (v == 0 || !validRune(v)) ==> result == 65533
+  ensures (v != 0 && validRune(v)) ==> result == v
+  modifies nothing
+
+func ReadWhile
+  purefunc pred
+  requires 0 <= index[0] && index[1] <= len(source)
+  ensures index[0] <= result0 && (index[0] <= index[1] ==> result0 <= index[1]) && (index[0] > index[1] ==> result0 == index[0])
+  modifies nothing
+  loop 0 inv index[0] <= j && (index[0] <= index[1] ==> j <= index[1]) && (index[0] > index[1] ==> j == index[0])
+  loop 0 dec index[1] - j
+
+// assumed frame: the entity table is built once under sync.Once and is private to this function
+func LookUpHTML5EntityByName
+  trusted
+  ensures result1 ==> result0 != nil
+  modifies entityTable
+
+func UnescapePunctuations
+  ensures fresh(result) || sameslice(result, source)
+  modifies nothing
+  loop 0 inv 0 <= n && n <= i && i <= limit && limit == len(source)
+  loop 0 inv !cob.copied ==> sameslice(cob.buffer, source)
+  loop 0 inv cob.copied ==> fresh(cob.buffer)
+  loop 0 dec limit - i
+
+func ResolveNumericReferences
+  ensures fresh(result) || sameslice(result, source)
+  // the code point handed to ToValidRune is the parsed value itself whenever it is a valid rune
+  // (so a value that does not fit a rune can only arrive as an invalid one and becomes U+FFFD)
+  callassert [hexNoWrap] util.ToValidRune#1: validRune(arg0) ==> arg0 == v
+  callassert [decNoWrap] util.ToValidRune#2: validRune(arg0) ==> arg0 == v
+  modifies nothing
+  loop 0 inv 0 <= n && n <= i && i <= limit && limit == len(source) && fresh(buf) && len(buf) == 6
+  loop 0 inv !cob.copied ==> sameslice(cob.buffer, source)
+  loop 0 inv cob.copied ==> fresh(cob.buffer)
+
+func ResolveEntityNames
+  ensures fresh(result) || sameslice(result, source)
+  modifies entityTable
+  loop 0 inv 0 <= n && n <= i && i <= limit && limit == len(source)
+  loop 0 inv !cob.copied ==> sameslice(cob.buffer, source)
+  loop 0 inv cob.copied ==> fresh(cob.buffer)
+
 func URLEscape
   uses htmlSpaceFacts
-  requires !resolveReference
   ensures [okURL] okURL(result)
   ensures [pctOK] pctOK(result)
   ensures [stable] stableURL(result)
-  ensures [idem] stableURL(v) ==> sameslice(result, v)
-  ensures fresh(result) || sameslice(result, v)
-  modifies nothing
+  ensures [idem] (!resolveReference && stableURL(v)) ==> sameslice(result, v)
+  ensures !resolveReference ==> (fresh(result) || sameslice(result, v))
+  modifies entityTable
   loop 0 inv 0 <= n && n <= i && i <= limit && limit == len(v)
   loop 0 inv !cob.copied ==> sameslice(cob.buffer, v)
   loop 0 inv [bufOK] cob.copied ==> (fresh(cob.buffer) && okURL(cob.buffer) && pctOK(cob.buffer) && stable0(cob.buffer))
@@ -232,6 +280,7 @@ func URLEscape
   loop 0 inv [pendPass] forall k int :: n <= k && k < i ==> (urlEscapeTable[v[k]] == 1 || utf8lenTable[v[k]] == 99 || (v[k] == '%' && k+2 < i && isHex(v[k+1]) && isHex(v[k+2])))
   loop 0 inv [headOK] (!cob.copied && n > 0) ==> (n == 1 && len(v) == 1 && utf8lenTable[v[0]] >= 2 && utf8lenTable[v[0]] <= 4)
   loop 0 inv [copiedWhy] cob.copied ==> (exists k int :: 0 <= k && k < i && !passes(v, k))
+  loop 0 inv [distinct] cob.copied ==> arrof(cob.buffer) != arrof(v)
   loop 0 dec limit - i
 
 // ---- PrioritizedSlice (C20) ----
